@@ -10,10 +10,13 @@ use super::*;
 //@include prelude/dbview.rs
 //@include prelude/hof.rs
 //@include prelude/index_spec.rs
+//@include prelude/arc.rs
 } // mod pre
 use pre::*;
 
-//@dbstruct definitions file_definitions usages usage_by_fixture definitions_version
+#[verifier::external_type_specification] pub struct ExUndeclaredFixture(UndeclaredFixture);
+
+//@dbstruct_arc definitions file_definitions usages usage_by_fixture definitions_version file_cache undeclared_fixtures imports
 
 //@include prelude/index_dbspecs.rs
 
@@ -29,6 +32,7 @@ impl FixtureDatabase {
         final(self).file_definitions == old(self).file_definitions,
         final(self).usages == old(self).usages,
         final(self).usage_by_fixture == old(self).usage_by_fixture,
+        final(self).rest() == old(self).rest(),
 @*/
 
 /*@ extract src/fixtures/analyzer.rs record_fixture_usage
@@ -44,6 +48,7 @@ impl FixtureDatabase {
         final(self).definitions == old(self).definitions,
         final(self).file_definitions == old(self).file_definitions,
         final(self).definitions_version == old(self).definitions_version,
+        final(self).rest() == old(self).rest(),
 @*/
 
 /*@ extract src/fixtures/analyzer.rs record_fixture_definition
@@ -57,6 +62,7 @@ impl FixtureDatabase {
         final(self).version() == (if old(self).version() == u64::MAX { 0u64 } else { (old(self).version() + 1) as u64 }),
         final(self).usages == old(self).usages,
         final(self).usage_by_fixture == old(self).usage_by_fixture,
+        final(self).rest() == old(self).rest(),
 @*/
 
 /*@ extract src/fixtures/analyzer.rs cleanup_definitions_for_file
@@ -68,6 +74,7 @@ impl FixtureDatabase {
         final(self).usages == old(self).usages,
         final(self).usage_by_fixture == old(self).usage_by_fixture,
         final(self).definitions_version == old(self).definitions_version,
+        final(self).rest() == old(self).rest(),
 @after remove 1
     let ghost names0 = fixture_names.s();
     let ghost mut pset: Set<Seq<char>> = Set::empty();
@@ -155,6 +162,7 @@ impl FixtureDatabase {
         final(self).definitions == old(self).definitions,
         final(self).file_definitions == old(self).file_definitions,
         final(self).definitions_version == old(self).definitions_version,
+        final(self).rest() == old(self).rest(),
 @closure 1 |entry: RefMulti<'_, String, Vec<(PathBuf, FixtureUsage)>>| -> (s: String) ensures s@ == entry.k@
 @closure 2 |path_u: &(PathBuf, FixtureUsage)| -> (b: bool) ensures b == (pbv(&path_u.0) == pbv(file_path))
 @closurelet 2 let (path, _) = path_u;
